@@ -20,7 +20,7 @@ import casadi as ca
 import mpmath as mp
 import z3
 
-from ..harness import Harness, Claim, HarnessError
+from ..harness import Harness, Claim, HarnessError, StructureChanged
 from ..val import Val
 from .. import val as V
 from ..enc import Ctx
@@ -132,7 +132,7 @@ class PredictNorm(Harness):
     def build(self):
         f = eqs()["predict"]
         if [f.name_in(i) for i in range(f.n_in())] != ["t", "x", "W", "omega_m", "std_gyro", "sn_gyro_rw", "dt"]:
-            raise HarnessError("predict signature changed")
+            raise StructureChanged("predict signature changed")
         if not f.sparsity_out(1).is_tril():
             raise TypeError("predict: W1 is not structurally lower triangular")
         t, dt = ca.SX.sym("t"), ca.SX.sym("dt")
@@ -321,7 +321,7 @@ class InitR0(Harness):
         finally:
             g.SO3MrpLieGroup.from_Matrix, g.SO3MrpLieGroup.exp, casadi.cross = o_fm, o_exp, o_cross
         if (len(rec["R0"]), len(rec["v"]), len(rec["cross"])) != (1, 1, 1):
-            raise HarnessError(f"initialize: unexpected structure (from_Matrix x{len(rec['R0'])}, exp of a gravity-dependent "
+            raise StructureChanged(f"initialize: unexpected structure (from_Matrix x{len(rec['R0'])}, exp of a gravity-dependent "
                                f"vector x{len(rec['v'])}, cross of the corrected east vector x{len(rec['cross'])})")
         R0 = rec["R0"][0]
         sv = {v.name(): v for v in ca.symvar(ca.vertcat(ca.vec(R0), rec["v"][0]))}
@@ -329,7 +329,7 @@ class InitR0(Harness):
             g_b = ca.vertcat(*[sv[f"g_b_{i}"] for i in range(3)])
             B_b = ca.vertcat(*[sv[f"B_b_{i}"] for i in range(3)])
         except KeyError as e:
-            raise HarnessError(f"initialize: input symbol {e} not found")
+            raise StructureChanged(f"initialize: input symbol {e} not found")
         f_real = m.initialize()
         ret = f_real(g_b, B_b, m.mag_decl)[1]
         return ca.Function("init_obs", [g_b, B_b, m.mag_decl, ca.vec(E), P2, P3],
